@@ -20,6 +20,12 @@ from .axis import _enumerated
 MOD = [verif.output, verif.util, verif.interval]
 
 
+def _complete(d, n_inputs, clim):
+    """attributes the real constructor sets that this hand-built Data object does not (see contracts/data.py)"""
+    from .data import _complete_from_constructor
+    _complete_from_constructor(d, n_inputs, clim, [True] * (n_inputs + (1 if clim else 0)), False, False, None)
+
+
 class TableData(object):
     def __init__(self, xvals, names):
         self.xvals, self.names = xvals, names
@@ -235,6 +241,7 @@ def _descriptors():
         for tz in ("UTC", "PST8", "CET-1"):
             with local_timezone(tz):
                 d = object.__new__(verif.data.Data)
+                _complete(d, 1, None)
                 d.times = _np.array([1325376000, 1325397600, 1330473600 + 3600, 1356998399, 4102444800 - 86400], int)   # 2012-01-01 00/06, 2012-02-29 01, 2012-12-31 23:59:59, 2099-12-31
                 d.leadtimes = _np.array([0.0, 6.0, 30.5])
                 d.locations = [verif.location.Location(3, 60.5, 10.25, 100.0), verif.location.Location(18, -33.0, 151.0, 5.0)]
@@ -266,6 +273,7 @@ def _descriptors():
         for clim in (False, True):
             for legend in (None, ["L1", "L2"]):
                 d = object.__new__(verif.data.Data)
+                _complete(d, 2, "subtract" if clim else None)
                 d._inputs = [_In("a"), _In("b")] + ([_In("clim")] if clim else [])
                 d._clim = d._inputs[-1] if clim else None
                 d._legend = legend
@@ -298,6 +306,7 @@ def _axis_values():
         for tz in ("UTC", "PST8"):
             with local_timezone(tz):
                 d = object.__new__(verif.data.Data)
+                _complete(d, 1, None)
                 d.times = _np.array(times, int)
                 d.leadtimes = _np.array(leads)
                 d.locations = [verif.location.Location(*l) for l in locs]
